@@ -149,9 +149,9 @@ PROPS["C06"] = dict(
     design_ref="DESIGN.md section 7 (C06)",
     run_files=["Run/C06Run.v"],
     engines=[dict(cmd=["c06"], corr="Model.LogReader.{simple_query,cached_query,cget,cput,fix_size,replicate} <-> logreader.Simple/Cached.QueryRaftLog, cache.get/put, fixSize, regattaserver.LogServer.Replicate")],
-    level_text="Theorems for every library cut oracle: the uncached reader's answer is exact (empty at applied+1, use-snapshot at/below the compaction point, otherwise a non-empty consecutive prefix from the requested index), the size cut keeps a non-empty prefix, and for any reader service with exact single answers the Replicate loop streams exactly the entries F..applied in non-empty batches followed by the up-to-date message. PARTIAL: that the cached reader meets the same contract (cache transparency) is not yet a theorem; it is compared case by case (cached vs simple vs model, cache sizes 1-12, prepend/append hits, compaction) by the correspondence run.",
-    level_note="Trusts: Coq kernel; dragonboat's reader contract (non-empty prefix of the range, ErrCompacted below the marker) as modelled and as implemented by the harness's fake reader; stale-cache window after compaction modelled as atomic invalidation; correspondence run.",
-    technique="Coq proof (consecutive-index lemmas over filtered logs, fuel induction over the Replicate loop for an abstract exact reader) + differential correspondence check of logreader and LogServer against the model on a contract-faithful fake log",
+    level_text="Theorems for every library cut oracle: the uncached reader's answer is exact (empty at applied+1, use-snapshot at/below the compaction point, otherwise a non-empty consecutive prefix from the requested index); the size cut keeps a non-empty prefix; the CACHED reader meets the same contract and preserves the invariant 'the buffer is a contiguous slice of the log' for every cache size and every query (also one whose end is older than what the cache has seen); for any reader service with exact single answers - hence for both readers - the Replicate loop streams exactly the entries F..applied in non-empty batches followed by the up-to-date message. The real readers and LogServer.Replicate run over a contract-faithful fake log (cache sizes 1-12, prepend/append hits, compaction with invalidation, stale range ends) and are compared with the model and with the property oracle.",
+    level_note="Trusts: Coq kernel; dragonboat's reader contract (non-empty prefix of the range, ErrCompacted below the marker) as modelled and as implemented by the harness's fake reader; the cache is invalidated as a whole on compaction (Cached.LogCompacted), modelled as atomic - the window between a compaction and its notification is not modelled; correspondence run.",
+    technique="Coq proof (consecutive-index lemmas over filtered logs, case analysis of the cached reader over canonical runs of entries, fuel induction over the Replicate loop for an abstract exact reader) + differential correspondence check of logreader and LogServer against the model on a contract-faithful fake log",
     trusted=["Model/LogReader.v hand-written model of storage/logreader and LogServer.Replicate; dragonboat ReadonlyLogReader by contract"],
     assumptions=["the end of the requested range is applied+1 and applied only grows (as the server computes it)", "log entries have consecutive indices after the compaction marker"],
 )
